@@ -81,7 +81,7 @@ class SiteTree:
                 self._w(sel + ".keywords", b"key words\n")
         if rng.random() < 0.5 and made:
             # link files
-            for lf in rng.sample([".Links", ".names", ".renames"], rng.randint(1, 2)):
+            for lf in rng.sample([".Links", ".names", ".renames", ".names~"], rng.randint(1, 2)):
                 blocks = []
                 for _ in range(rng.randint(1, 3)):
                     b = rng.choice(LINK_BLOCKS)
